@@ -1,8 +1,65 @@
+// clap metadata of the real CLI (the argument definitions are compiled in from /repo's sources)
+use clap::{CommandFactory, Parser};
 use serde_json::{json, Value};
 
-pub fn clap_dump(_req: &Value) -> Value {
-    json!({"error": "not built"})
+#[allow(dead_code, unused_imports)]
+#[path = "/repo/renamify-cli/src/cli/mod.rs"]
+mod cli;
+
+use cli::args::Cli;
+
+fn arg_json(a: &clap::Arg) -> Value {
+    let possible: Vec<String> = a
+        .get_possible_values()
+        .iter()
+        .filter(|p| !p.is_hide_set())
+        .map(|p| p.get_name().to_string())
+        .collect();
+    let num = a.get_num_args();
+    json!({
+        "id": a.get_id().as_str(),
+        "long": a.get_long(),
+        "short": a.get_short().map(|c| c.to_string()),
+        "positional": a.is_positional(),
+        "required": a.is_required_set(),
+        "takes_value": a.get_action().takes_values(),
+        "action": format!("{:?}", a.get_action()),
+        "multiple": matches!(a.get_action(), clap::ArgAction::Append) || num.map_or(false, |n| n.max_values() > 1),
+        "delimiter": a.get_value_delimiter().map(|c| c.to_string()),
+        "possible": possible,
+        "global": a.is_global_set(),
+        "value_parser": format!("{:?}", a.get_value_parser()),
+        "index": a.get_index(),
+        "default": a.get_default_values().iter().map(|v| v.to_string_lossy().to_string()).collect::<Vec<_>>(),
+    })
 }
-pub fn clap_parse(_req: &Value) -> Value {
-    json!({"error": "not built"})
+
+pub fn clap_dump(_req: &Value) -> Value {
+    let cmd = Cli::command();
+    let globals: Vec<Value> = cmd.get_arguments().map(arg_json).collect();
+    let mut subs = vec![];
+    for sc in cmd.get_subcommands() {
+        let args: Vec<Value> = sc.get_arguments().map(arg_json).collect();
+        let mut conflicts = vec![];
+        for a in sc.get_arguments() {
+            for c in sc.get_arg_conflicts_with(a) {
+                conflicts.push(json!([a.get_id().as_str(), c.get_id().as_str()]));
+            }
+        }
+        subs.push(json!({"name": sc.get_name(), "args": args, "conflicts": conflicts, "hidden": sc.is_hide_set()}));
+    }
+    json!({"ok": {"globals": globals, "subcommands": subs}})
+}
+
+pub fn clap_parse(req: &Value) -> Value {
+    let empty = vec![];
+    let mut argv: Vec<String> = vec!["renamify".to_string()];
+    argv.extend(req["argv"].as_array().unwrap_or(&empty).iter().filter_map(|x| x.as_str().map(String::from)));
+    // make sure env does not leak into parsing
+    std::env::remove_var("NO_COLOR");
+    std::env::remove_var("RENAMIFY_YES");
+    match Cli::try_parse_from(&argv) {
+        Ok(cli) => json!({"ok": true, "parsed": format!("{:?}", cli)}),
+        Err(e) => json!({"ok": false, "kind": format!("{:?}", e.kind()), "msg": e.to_string().lines().next().unwrap_or("").to_string()}),
+    }
 }
